@@ -382,3 +382,63 @@ def c04_edge(R):
             f"{'Or' if 'or' in name else 'And'}() raises StopIteration",
             construct=f"{name}: empty operand list",
         )
+
+
+@rule(
+    "C04.slices",
+    props=("C04", "C25", "C13"),
+    floor=2,
+    family="GRD",
+    desc="two places where a rebuilt expression can fail to exist: the balancer slices at a shift amount only under a fact "
+    "that the amount is below the width; ReplacementFrontend substitutes inside a handler for the division-by-zero error "
+    "of the eager fold",
+)
+def c04_slices(R):
+    tree = R.tree
+    BALP = "claripy/backends/backend_vsa/balancer.py"
+    mb = tree.mod(BALP)
+    fn = util.resolve_locals(tree.func_inlined(BALP, "Balancer._balance_lshift"))
+    n = 0
+    amount = None
+    for st in walk_no_nested(tree.func(BALP, "Balancer._balance_lshift")):
+        if isinstance(st, ast.Assign) and isinstance(st.value, ast.Subscript) and "values" in ast.unparse(st.value.value) and isinstance(st.targets[0], ast.Name):
+            amount = st.targets[0].id
+    R.need(amount is not None, "_balance_lshift: the concrete shift amount was not found")
+    raw = tree.func(BALP, "Balancer._balance_lshift")
+    for c in walk_no_nested(raw):
+        if isinstance(c, ast.Call) and (dotted(c.func) or "").split(".")[-1] == "Extract" and any(isinstance(x, ast.Name) and x.id == amount for a in c.args for x in ast.walk(a)):
+            n += 1
+            facts = _facts(c)
+            ok = any(re.fullmatch(rf"{amount} < len\(.+\)|{amount} < .+\.(size\(\)|length)|len\(.+\) > {amount}", f) for f in facts)
+            R.check(
+                ok,
+                mb,
+                c,
+                "_balance_lshift slices at the shift amount only below the width",
+                f"_balance_lshift builds `{norm(c)[:60]}` with no fact that `{amount}` is below the width: for (x << 9) == 0 on an 8-bit x "
+                f"the slice does not exist, Extract raises ClaripyOperationError and SolverHybrid.add fails on a legal constraint",
+                construct="_balance_lshift: slice at an unbounded shift amount",
+            )
+    R.need(n >= 2, f"_balance_lshift: only {n} slices at the shift amount found")
+    RFP = "claripy/frontend/replacement_frontend.py"
+    mr = tree.mod(RFP)
+    rp = tree.func(RFP, "ReplacementFrontend._replacement")
+    calls = [c for c in walk_no_nested(rp) if isinstance(c, ast.Call) and (dotted(c.func) or "").split(".")[-1] == "replace_dict"]
+    R.need(len(calls) >= 1, "_replacement no longer substitutes with replace_dict")
+    for c in calls:
+        par = getattr(c, "_parent", None)
+        handled = False
+        while par is not None and par is not rp:
+            if isinstance(par, ast.Try) and any(h.type is not None and re.search(r"ZeroDivisionError|ClaripyOperationError|ClaripyError|Exception", ast.unparse(h.type)) for h in par.handlers):
+                handled = True
+            par = getattr(par, "_parent", None)
+        R.check(
+            handled,
+            mr,
+            c,
+            "_replacement survives a divisor that became zero",
+            "ReplacementFrontend._replacement substitutes outside any handler for ClaripyZeroDivisionError: x -> 3 in 5 // (x - 3) "
+            "builds 5 // 0, which the eager fold refuses, and eval / max / min / solution raise out of the frontend (the solver "
+            "answers 255)",
+            construct="_replacement: substitution may raise ClaripyZeroDivisionError",
+        )
